@@ -26,6 +26,8 @@ import OpyVerif.Generated.OpsDefs
 import OpyVerif.Generated.GrowDefs
 import OpyVerif.Generated.PopLoopsDefs
 import OpyVerif.Generated.ClipLoopsDefs
+import OpyVerif.Generated.SweepsDefs
+import OpyVerif.Model.TaskRun
 /-
 Line-protocol driver: runs the *executable model definitions* on inputs sent by the Python
 harness, one request per line, one answer per line.  Imports models only (no Mathlib), so it
@@ -48,6 +50,11 @@ structure DState where
   cfg : Cfg := { fmax := 0, swarm := false, lbs := [], ubs := [] }
   st : Option St := none
   hist : Hist := { storeBestOnly := false, attrs := [] }
+  /-- task replay (`Model/TaskRun`): the program, the box, the start state; the scripted oracle steps in call order
+      (`none` = the step leaves population and best agent as they are); the objective as a table -/
+  task : Option (TaskProg × List Int × List Int × TaskSt) := none
+  script : Array (Option (List Ag × Ag)) := #[]
+  tbl : List (Pos × Int) := []
 
 def showSt (s : St) : String :=
   s!"{showAgs s.pop} {showAg s.best} {s.cursor} {b01 s.swept} {b01 s.truthful} {s.hooks} {s.dumps} {s.sinceHook}"
@@ -350,6 +357,37 @@ def step (d : DState) (line : String) : DState × String :=
     match p target, p saved with
     | some t, some s => (d, ",".intercalate ((loadInto t s).map (·.1)))
     | _, _ => (d, "bad-op")
+  -- a whole task of the translated programs (skeleton + clip loop + sweep) under a scripted oracle
+  | ["tk.init", kind, space, swarm, lbs, ubs, pop, best] =>
+    match Opy.Gen.skeletons.find? (·.1 == kind), parseInts lbs, parseInts ubs, parseAgs pop, parseAg best with
+    | some (_, _, sk), some l, some u, some p, some b =>
+      let prog : TaskProg := { skel := sk, clip := if space == "h" then Opy.Gen.hyperClip else Opy.Gen.searchClip,
+                               sweep := if swarm == "1" then Opy.Gen.psoSweep else Opy.Gen.genericSweep }
+      ({ d with task := some (prog, l, u, TaskSt.start p b), script := #[], tbl := [] }, "ok")
+    | _, _, _, _, _ => (d, "bad-op")
+  | ["tk.step", "="] => ({ d with script := d.script.push none }, "ok")
+  | ["tk.step", pop, best] =>
+    match parseAgs pop, parseAg best with
+    | some p, some b => ({ d with script := d.script.push (some (p, b)) }, "ok")
+    | _, _ => (d, "bad-op")
+  | ["tk.f", p, v] =>
+    match parsePos p, v.toInt? with
+    | some p, some v => ({ d with tbl := (p, v) :: d.tbl }, "ok")
+    | _, _ => (d, "bad-op")
+  | ["tk.run", n] =>
+    match d.task, n.toNat? with
+    | some (prog, l, u, s0), some n =>
+      let stepAt : Nat → List Ag × Ag → List Ag × Ag := fun k st => match d.script[k]? with
+        | some (some r) => r | _ => st
+      let o : TaskOracle :=
+        { f := fun p => match d.tbl.find? (·.1 == p) with | some e => e.2 | none => 0,
+          upd := stepAt, hook := stepAt, post := stepAt }
+      let s := prog.runTask l u o s0 n
+      let recs (l : List (Pos × Int)) : String := if l.isEmpty then "-" else "|".intercalate (l.map fun r => s!"{showPos r.1}:{r.2}")
+      let dumps := if s.dumps.isEmpty then "-" else "/".intercalate (s.dumps.map fun dd => s!"{recs dd.1}~{recs [dd.2]}")
+      let args := if s.sweepArgs.isEmpty then "-" else "/".intercalate (s.sweepArgs.map showPop)
+      (d, s!"{s.k} {args} {dumps} {showAg s.best}")
+    | _, _ => (d, "noinit")
   -- skeleton and guard tables (generated from the source)
   | ["skel", kind, n] => match Opy.Gen.skeletons.find? (·.1 == kind), n.toNat? with
     | some (_, _, sk), some n => (d, "".intercalate ((runSkel sk n).map sevStr))
